@@ -5,6 +5,7 @@ import json
 import os
 import re
 import subprocess
+import time
 
 import gen_loaders as G
 import vlib
@@ -12,7 +13,7 @@ import vlib
 PID = "C19"
 HINT = ("on this input the implementation behaves like the model without the checks (Guards.original), i.e. like "
         "the code before fixes/C19-1.patch, C19-2.patch, C19-3.patch")
-NOISE = ("detail", "detail0", "stack", "why")
+NOISE = ("detail", "detail0", "stack", "why", "confirmed_alone", "head")
 ENV = None
 
 
@@ -169,6 +170,15 @@ def verdict(case, i, m, admissible):
         if admissible is False:
             return ("a rejected reload changed the state in effect: before "
                     f"{json.dumps(i.get('state0'))}, after {json.dumps(i.get('state1'))}"), True, "state"
+        if op == "ruleset":
+            for phase, doc, state in (("start", case.get("first_doc"), "state0"),
+                                      ("reload", case.get("second_doc"), "state1")):
+                if i.get(phase) == "ok" and isinstance(doc, dict) and doc.get("kind") == "doc":
+                    want, got = sorted(r["id"] for r in doc["rules"]), ids_of(i.get(state, []))
+                    if want != got:
+                        return (f"an accepted rule set is not in force as a whole (theorem "
+                                f"c19_accepted_ruleset_is_complete): the document defines the rules {want}, "
+                                f"in force afterwards: {got}"), True, "state"
         if op == "ruleset" and "panic" in (i.get("state0", []) + i.get("state1", [])):
             return "a request panics after the reload", True, "panic"
     if op in ("watch", "provider", "serve", "raw") and isinstance(i, dict):
@@ -300,10 +310,18 @@ def build_cases(R, exe):
         raise RuntimeError("harness cannot produce the token material: " + json.dumps(mat)[:300])
     streams = collections.OrderedDict()
     streams["material scenarios"] = G.scenario_grid()
-    grid_names = ["ec256+cert"] if quick else ["ec256+cert", "ec256b chain2", "renewed certificate",
-                                              "with comments", "cross certified"]
-    streams["material truncations"] = lambda: G.truncation_grid(grid_names, G.CONSUMERS + ["keystore", "trust"]) + (
-        [] if quick else G.truncation_grid(["two keys", "rsa2048+cert"], G.CONSUMERS + ["keystore", "trust"], step=3))
+    grid_names = ["ec256+cert"] if quick else ["ec256+cert", "ec256b chain2", "renewed certificate", "renewed twice",
+                                              "with comments", "cross certified",
+                                              "three cross certified authorities"]
+    # stores whose certificates form issuer cycles of three and four (renewal chains, authorities in generations,
+    # cross certification): coarser steps, the cycle is complete only in the last prefixes anyway
+    coarse = ["renewed twice", "three cross certified authorities"] if quick else [
+        "two keys", "rsa2048+cert", "renewed three times", "authority in three generations",
+        "four cross certified authorities", "renewed intermediate below cross certified roots",
+        "renewed twice (ski)"]
+    streams["material truncations"] = lambda: (
+        G.truncation_grid(grid_names, G.CONSUMERS + ["keystore", "trust"])
+        + G.truncation_grid(coarse, G.CONSUMERS + ["keystore", "trust"], step=11 if quick else 3))
     streams["material random"] = lambda: [G.gen_material(rng) for _ in range(2500 if quick else 20000)]
     streams["rule set grid"] = G.ruleset_grid()
     streams["rule set random"] = lambda: [G.gen_ruleset(rng) for _ in range(2500 if quick else 25000)]
@@ -323,9 +341,11 @@ def build_cases(R, exe):
                (["ok"], ["panic"], ["error"], ["ok", "panic", "ok"], ["panic", "panic", "error", "ok"])]
         bg += [G.gen_script(rng, op) for _ in range(6 if quick else 60)]
     bg += [G.watch_material_case("jwt", ["rsa2048+cert", "empty", "ec256+cert", "rsa1024", "certificate only",
-                                         "ec521+cert", "renewed certificate", "two keys"]),
+                                         "ec521+cert", "renewed certificate", "renewed twice",
+                                         "three cross certified authorities", "two keys"]),
            G.watch_material_case("tls", ["rsa2048+cert", "empty", "ec256+cert", "ec384 bare", "renewed certificate",
-                                         "rsa3072 chain3", "text", "rsa1024"])]
+                                         "rsa3072 chain3", "text", "authority key in three generations",
+                                         "four cross certified authorities", "rsa1024"])]
     if not quick:
         allst = sorted(set(G.GOOD) | set(G.HOSTILE))
         for _ in range(25):
@@ -358,6 +378,47 @@ def resolve_corpus(corpus, mat):
     return res
 
 
+STARVED = ("address already in use", "cannot assign requested address", "too many open files")
+
+
+def retry_starved(exe, cases, impl):
+    """loopback ports / descriptors can run out for a moment on a machine that runs many checks at once; that says
+    nothing about heimdall: such cases are run again after a pause"""
+    for attempt in range(4):
+        todo = [k for k, i in enumerate(impl) if isinstance(i, dict) and any(
+            t in str(i.get("harness_error", "")) for t in STARVED)]
+        if not todo:
+            return
+        time.sleep(15)
+        again = run_impl(exe, [cases[k] for k in todo])
+        for k, r in zip(todo, again):
+            impl[k] = r
+
+
+UNATTRIBUTED = []     # process deaths that did not repeat when the case was run alone
+
+
+def confirm_crashes(exe, cases, impl, limit=40):
+    """A process that dies (a fatal error such as stack exhaustion cannot be caught in-process) takes the answer of
+    the case it was working on with it. The death is attributed to that case only if the case, run alone in a
+    fresh process, kills that one too; its answer then carries the beginning of the Go trace."""
+    if len(cases) == 1:
+        return
+    n = 0
+    for k, (c, i) in enumerate(zip(cases, impl)):
+        if not (isinstance(i, dict) and "crash" in i) or n >= limit:
+            continue
+        n += 1
+        alone = run_impl(exe, [c])[0]
+        if isinstance(alone, dict) and "crash" in alone:
+            alone["confirmed_alone"] = True
+            alone["head"] = crash_head(exe, c) if n <= 6 else ""
+            impl[k] = alone
+        else:
+            UNATTRIBUTED.append({"case": slim(c), "died_with": str(i.get("crash"))[-600:], "alone": strip(alone)})
+            impl[k] = alone
+
+
 def evaluate(R, exe, cases, fill_expectations=True):
     mcases = [c for c in cases if modelled(c)]
     model_of = {}
@@ -368,6 +429,8 @@ def evaluate(R, exe, cases, fill_expectations=True):
             if isinstance(mr, dict) and "states" in mr:
                 c["expect_states"] = mr["states"]
     impl = run_impl(exe, cases)
+    retry_starved(exe, cases, impl)
+    confirm_crashes(exe, cases, impl)
     qs, idx = judge_cases(cases, impl)
     adm = {k: vlib.res_of(a) for k, a in zip(idx, run_model(qs))}
     return impl, [model_of.get(id(c)) for c in cases], adm
@@ -474,6 +537,10 @@ def run(R):
 
     report(R, exe, bad)
     R.coverage["disagreements_checked"] = len(bad)
+    if UNATTRIBUTED:
+        R.violation(f"the harness process died {len(UNATTRIBUTED)} time(s) while working on a case that does not "
+                    "kill it when run alone (a goroutine of an earlier case?)", {"deaths": UNATTRIBUTED[:5]},
+                    no_input=True)
     if gen_err:
         R.violation("the recover layer cannot be read off the source (extract/guards): " + gen_err,
                     {"error": gen_err}, no_input=True)
@@ -511,8 +578,9 @@ def signature(c, i, v):
     what, _, kind = v
     detail = what
     if kind == "crash" and isinstance(i, dict):
-        mt = re.search(r"^(panic: .*|fatal error: .*)$", str(i.get("crash") or i.get("panic") or ""), re.M)
-        detail = mt.group(1) if mt else "fatal error (stack exhausted)"
+        text = str(i.get("head") or "").replace(" | ", "\n") + "\n" + str(i.get("crash") or i.get("panic") or "")
+        mt = re.search(r"^(panic: .*|fatal error: .*)$", text, re.M)
+        detail = mt.group(1) if mt else "fatal error: stack overflow"
     detail = re.sub(r"[0-9a-f]{8,}|\d+", "#", detail)[:90]
     part = ""
     if kind == "model":
@@ -536,8 +604,10 @@ def report(R, exe, bad):
         if sv is None or sv[2] != kind:
             sc, si, sm, sv = c, [i], [m], (what, concrete, kind)
         what = sv[0]
+        head = None
         if crashed(si[0]) and "crash" in si[0]:
-            what += ": " + crash_head(exe, sc)
+            head = crash_head(exe, sc)      # the case once more, alone in a fresh process
+            what += ": " + head
         hint = HINT if (sm[0] is not None and like_original(sc, si[0], sm[0])) else None
         payload = {"case": slim(sc), "impl": strip(si[0]) if isinstance(si[0], dict) else si[0],
                    "model": vlib.res_of(sm[0]) if sm[0] is not None else "no model: judged by the specification",
@@ -546,6 +616,9 @@ def report(R, exe, bad):
                             "expect": "impl-vs-oracle",
                             "model": "impl-vs-model", "harness": "harness"}[kind],
                    "same_failures_in_this_run": len(group)}
+        if head is not None:
+            payload["crash_reproduced_alone"] = bool(head)
+            payload["crash_head"] = head
         if hint:
             payload["hint"] = hint
             what += " [" + hint + "]"
